@@ -17,7 +17,7 @@ From SFC.Gen Require Import Fx Zone.
 From SFC.GenMarket Require Import Market.
 From SFC.GenTax Require Import Tax Dividends.
 From SFC.GenAsset Require Import Common Money Deposit Weighting.
-From SFC.GenMain Require Import Program Classes Main.
+From SFC.GenMain2 Require Import Program Classes Main.
 Import ListNotations.
 Local Open Scope string_scope.
 
